@@ -57,6 +57,16 @@ def from_era5(dset, freqs=None, dirs=None):
 
     """
 
+    # Rename native ERA5 names if the dataset has not been through read_netcdf
+    mapping = {
+        "d2fd": attrs.SPECNAME,
+        "frequency": attrs.FREQNAME,
+        "direction": attrs.DIRNAME,
+        "longitude": attrs.LONNAME,
+        "latitude": attrs.LATNAME,
+    }
+    dset = dset.rename({k: v for k, v in mapping.items() if k in dset.variables})
+
     # Convert ERA5 format to wavespectra format
     dset = 10**dset * np.pi / 180
     dset = dset.fillna(0)
